@@ -189,7 +189,7 @@ def run_scopes(ctx, cases, conc_ids, rev_ids):
     conc = {}
     if conc_ids:
         racy = {c["id"] for c in cases if len(c["muts"]) == 1 and c["muts"][0]["tgt"] == "F" and c["muts"][0]["op"] in ("aug", "concat")}
-        creqs = [dict(r, conc=(150 if ctx.quick else 600), par=4) if r["id"] in racy else dict(r, conc=(3 if ctx.quick else 8), par=2)
+        creqs = [dict(r, conc=(50 if ctx.quick else 600), par=4) if r["id"] in racy else dict(r, conc=(3 if ctx.quick else 8), par=2)
                  for r in reqs if r["id"] in conc_ids]
         try:
             conc = vlib.run_vh(ctx, "aspscopes", creqs, timeout=1500)
@@ -360,7 +360,7 @@ def run_c17(ctx):
             if k not in seen_pairs and (not ctx.quick or c["cls"] == "leak-candidate" or len(pick) < 4):
                 seen_pairs.add(k)
                 pick.append(c)
-    pick = pick[:3] if ctx.quick else pick[::max(1, len(pick) // 40)]
+    pick = pick[:2] if ctx.quick else pick[::max(1, len(pick) // 40)]
     e2e = e2e_scopes(ctx, pick)
     for cid, probs in e2e.items():
         bad.setdefault(cid, [])
